@@ -72,7 +72,7 @@ fn refs_impl(src: &str) -> String {
             vs.dedup();
             fs.dedup();
             let f = |l: &Vec<String>| l.iter().map(|x| format!(" {}", sx_str(x))).collect::<String>();
-            format!("(refs (vars{}) (funs{}))", f(&vs), f(&fs))
+            format!("(refs (vars{}) (funs{}) (closed true))", f(&vs), f(&fs))
         }
     })
 }
